@@ -32,6 +32,13 @@
 (* soon as the remote child is known to be gone (must be rejected by C04_Stable: a later    *)
 (* is_alive()/wait() contradicts the True).                                                 *)
 (*                                                                                        *)
+(* Target behaviour "unreb": the target ends by itself shortly after the start with an      *)
+(* outcome that cannot be rebuilt on the parent side (an exception class whose constructor *)
+(* needs arguments).  RebuildRaises = TRUE: ProcessWorker.wait lets the TypeError of the    *)
+(* early receive of the final message escape (must be rejected by C04_Returns: a call must  *)
+(* answer True/False).  CacheDeadOnFalse = TRUE: RemoteWorker.terminate caches _dead when   *)
+(* it answers False (must be rejected by C04_Truthful: the next wait() says True).          *)
+(*                                                                                        *)
 (* Fix = set of proposed repairs that are applied:                                        *)
 (*   "poll"   ProcessWorker.terminate polls the control pipe with the timeout             *)
 (*   "kill"   force-terminate escalates SIGTERM -> SIGKILL (process.py, remote.py)        *)
@@ -40,7 +47,7 @@
 (* Fix = {} is the code as it is.                                                         *)
 EXTENDS Naturals, Sequences, FiniteSets, TLC, LifecycleProps
 
-CONSTANTS Fix, MaxOps, Free, Hist, Cases, ReportMeansDead, RemDeadMeansDead
+CONSTANTS Fix, MaxOps, Free, Hist, Cases, ReportMeansDead, RemDeadMeansDead, CacheDeadOnFalse, RebuildRaises
 
 VARIABLES case,   \* the scenario (constant after Init): [id, kind, pers, beh, start, ops]
           c,      \* child process/thread
@@ -88,7 +95,7 @@ PreNow  == IF ~Started \/ (Dead /\ (Remote => s.fpc = "done")) THEN "dead" ELSE 
 G_Land == c.cos = "run" /\ c.cpc = "target" /\ c.async /\ case.beh \in {"coop", "swallow"}
 G_Wake == c.cos = "run" /\ c.cpc = "target" /\ case.beh \in {"idle", "slowres"} /\ c.rel
 G_Fin  == c.cos = "run" /\ (c.cpc \in {"fin_rel", "exit"} \/ (c.cpc = "fin_join" /\ c.kpc = "done"))
-G_Ret  == c.cos = "run" /\ c.cpc = "target" /\ case.beh = "linger"          \* the target returns at once
+G_Ret  == c.cos = "run" /\ c.cpc = "target" /\ case.beh \in {"linger", "unreb"}          \* the target returns at once
 G_K    == c.cos = "run" /\ c.kpc # "done" /\ (c.kpc = "recv" => c.kbox # <<>>)
 G_Die  == ~Dead /\ (c.sigK \/ (c.sigT /\ c.cos \in {"run", "frozen"}))
 QuietChild == ~(G_Land \/ G_Wake \/ G_Fin \/ G_Ret \/ G_K \/ G_Die)    \* (LingerEnd is slower than any timeout: not counted)
@@ -180,7 +187,7 @@ Fc == OpForce(p.cur)
 N  == OpN(p.cur)
 
 RecW(v, w) == [op |-> p.cur, ret |-> v, durc |-> "ok", fast |-> IF p.waited \/ w THEN "F" ELSE "T", pre |-> p.pre,
-               os_ret |-> OsNow, os_grace |-> OsGrace, selfsig |-> "F", after_true |-> IF p.said THEN "T" ELSE "F"]
+               os_ret |-> OsNow, os_grace |-> OsGrace, selfsig |-> "F", thr_ret |-> IF Remote /\ Started /\ s.fpc # "done" THEN "alive" ELSE "gone", after_true |-> IF p.said THEN "T" ELSE "F"]
 Rec(v) == RecW(v, FALSE)
 RetW(v, dead, w) == p' = [p EXCEPT !.pc = "idle", !.nops = @ + 1, !.deadF = (@ \/ dead), !.said = (@ \/ (p.cur \in WTOps /\ v = "T")),
                                    !.calls = IF Hist THEN Append(@, RecW(v, w)) ELSE <<RecW(v, w)>>]
@@ -227,8 +234,9 @@ PStep ==
           /\ UNCHANGED s
        [] p.pc = "w_join" ->           \* join(timeout)
           /\ Dead \/ PTimeout(T)
-          /\ LET believed == Dead \/ (ReportMeansDead /\ Kind = "process" /\ c.resSent) IN      \* the code asks the OS (is_alive)
-             RetW(IF believed THEN "T" ELSE "F", believed, ~Dead /\ T = "t") /\ UNCHANGED <<c, s>>
+          /\ LET believed == Dead \/ (ReportMeansDead /\ Kind = "process" /\ c.resSent)       \* the code asks the OS (is_alive)
+                 boom == RebuildRaises /\ Kind = "process" /\ case.beh = "unreb" /\ c.resSent IN  \* _join_child: the final message cannot be rebuilt
+             RetW(IF boom THEN "raised" ELSE IF believed THEN "T" ELSE "F", believed /\ ~boom, ~Dead /\ T = "t") /\ UNCHANGED <<c, s>>
        \* ---- terminate, thread kind ----
        [] p.pc = "t_raise" ->          \* foreign_raise + _release_child
           /\ c' = [c EXCEPT !.async = (c.cpc = "target"), !.rel = (@ \/ (Pers /\ ~p.closed))]
@@ -279,7 +287,7 @@ PStep ==
        [] p.pc = "x_joinF2" ->
           /\ s.fpc = "done" \/ PTimeout(T)
           /\ GotoW("x_ret", s.fpc # "done" /\ T = "t") /\ UNCHANGED <<c, s>>
-       [] p.pc = "x_ret" -> Ret(IF s.fpc = "done" THEN "T" ELSE "F", s.fpc = "done") /\ UNCHANGED <<c, s>>
+       [] p.pc = "x_ret" -> Ret(IF s.fpc = "done" THEN "T" ELSE "F", IF CacheDeadOnFalse THEN s.fpc # "done" ELSE s.fpc = "done") /\ UNCHANGED <<c, s>>
        \* ---- is_alive ("T" = alive) ----
        [] p.pc = "a_chk" ->
           IF ~Started \/ p.deadF THEN Ret("F", FALSE) /\ UNCHANGED <<c, s>>
@@ -324,6 +332,7 @@ Inv_DeadFast == AtRest => C04_DeadFast(R0)
 Inv_Force    == AtRest => C04_Force(R0)
 Inv_Stable   == AtRest => C04_Stable(R0)
 Inv_NoSelfKill == ~p.selfk
+Inv_Returns  == AtRest => C04_Returns(R0)
 \* wait/terminate always come back: every call in progress eventually returns
 Live_Returns == (p.pc # "idle") ~> (p.pc = "idle")
 
